@@ -200,6 +200,7 @@ class GhostIterable:
 
     reversed = False
     managed = ()
+    temps = ()
 
     def init(self, interp, env):
         pass
@@ -1025,6 +1026,8 @@ class Interp:
         self.exec_block(s.orelse, env)
 
     def iterate(self, v):
+        if isinstance(v, GhostIterable):
+            return v        # a collection of unknown size: only a `for` loop / comprehension may consume it (loop cut)
         if isinstance(v, (list, tuple, str, dict, set, frozenset, range, np.ndarray)) or isinstance(v, types.GeneratorType):
             return iter(v)
         it = _lookup(type(v), "__iter__")
@@ -1035,6 +1038,23 @@ class Interp:
     def s_For(self, s, env):
         itv = self.eval(s.iter, env)
         if isinstance(itv, GhostIterable):
+            return self._for_ghost(s, env, itv)
+        it = self.iterate(itv)
+        if isinstance(it, GhostIterable):
+            # a repository __iter__ handed out a ghost collection (e.g. Circuit.__iter__ -> iter(self._gates)): cut the loop as well
+            return self._for_ghost(s, env, it)
+        for x in it:
+            self.assign(s.target, x, env)
+            try:
+                self.exec_block(s.body, env)
+            except _Break:
+                return
+            except _Continue:
+                continue
+        self.exec_block(s.orelse, env)
+
+    def _for_ghost(self, s, env, itv):
+        if True:
             # loop over a collection of UNKNOWN size: cut the loop with the contract's invariant protocol -
             #   init(env): the invariant holds on entry;  havoc(env): arbitrary state satisfying the invariant;
             #   one generic iteration of the real body;  step(env): the invariant is re-established;
@@ -1060,16 +1080,6 @@ class Interp:
             if not broke:
                 self.exec_block(s.orelse, env)
             return
-        it = self.iterate(itv)
-        for x in it:
-            self.assign(s.target, x, env)
-            try:
-                self.exec_block(s.body, env)
-            except _Break:
-                return
-            except _Continue:
-                continue
-        self.exec_block(s.orelse, env)
 
     def s_Raise(self, s, env):
         if s.exc is None:
